@@ -5,7 +5,7 @@ use crate::framework::*;
 use serde_json::json;
 
 pub fn build(tier: Tier) -> CheckDef {
-    let mut spaces: Vec<Box<dyn Space>> = vec![Box::new(StreamSpace { which: Which::C07, cases: stream_cases(tier, Which::C07), threads: tier.pick(4, 8) })];
+    let mut spaces: Vec<Box<dyn Space>> = vec![Box::new(StreamSpace { which: Which::C07, cases: stream_cases(tier, Which::C07), threads: tier.pick(4, 8), budget_secs: tier.pick(150, 7200) })];
     spaces.push(Box::new(HugeOpen { which: Which::C07 }));
     spaces.push(Box::new(Occupancy { which: Which::C07, max: tier.pick(40, 80) }));
     spaces.push(Box::new(HugeSession { which: Which::C07, depth: tier.pick(2, 3), encs: tier.pick(1, 2) }));
